@@ -214,6 +214,12 @@ def rand_case(rng):
         if rng.random() < 0.6:
             text = rand_text_around(rng, "\n") + rng.choice(["", "\n", "\n\n"])
             runs = layout(rng, text)
+        elif rng.random() < 0.5:
+            # CR LF line ends, keepends=True only: the LF splits and the CR stays with its line, exactly as in str
+            # (a lone CR, or keepends=False, is where the method's "\n only" departs from str: not generated)
+            call = ["splitlines", True]
+            text = rand_text_around(rng, "\r\n").replace("\n\n", "\n") + rng.choice(["", "\r\n"])
+            runs = layout(rng, text)
     elif r < 0.47:
         call = ["join", [rand_item(rng) for _ in range(rng.choice([0, 1, 2, 3, 3]))]]
     elif r < 0.65:
